@@ -255,9 +255,33 @@ def run_case(case):
                     mu_sys = sum(p_['m'] for p_ in spec['system']['planets']) / spec['system']['mstar'] if nsys == 1 else 1e-2
                     if gt(mE, ({'leapfrog': 0.3, 'janus': 0.3, 'eos': 5e-2}.get(integ, 1e-3)) + 5 * mu_sys):
                         add('conserve:energy-bound:%s' % integ, '%s: max |dE/E| = %.3e' % (desc, mE))
-                    elif third and done >= 300 and nsys == 1 and abs(done * spec['dt']) >= 30 * gen.inner_period(spec['system']) * spec.get('tscale', 1.0) and integ not in ('mercurius', 'trace') and mE > 300 * max(third) + 1e-12 and mE > 1e-7:
-                        # drifting? fit: compare the last third's max with the first third's
-                        add('conserve:energy-drifts:%s' % integ, '%s: max |dE/E| first third %.3e, whole run %.3e' % (desc, max(third), mE))
+                    elif nsys == 1 and integ not in ('mercurius', 'trace', 'whfast512') and not unsafe and done >= 300:
+                        # drift: the checkpoints above are too sparse to separate a secular drift from the orbital oscillation of the energy error
+                        # (a run sampled at two quiet phases in its first third looked like a 600-fold growth).  Dense monitor: the same
+                        # configuration again, energy after EVERY step; the mean error of the last third must not have moved away from the mean
+                        # of the first third by more than the oscillation amplitude seen in the first third.
+                        ds = gen.build_sim(spec)
+                        e0 = ds.energy()
+                        nd = 900
+                        es = []
+                        try:
+                            for _k in range(nd):
+                                ds.steps(1)
+                                es.append((ds.energy() - e0) / abs(e0))
+                        except Exception:
+                            es = []
+                        if len(es) == nd:
+                            counters['dense_energy_runs'] = counters.get('dense_energy_runs', 0) + 1
+                            a_, c_ = es[:nd // 3], es[2 * nd // 3:]
+                            amp = max(abs(x_) for x_ in a_)
+                            shift = abs(sum(c_) / len(c_) - sum(a_) / len(a_))
+                            key = 'max_energy_mean_shift_over_amplitude_x100:%s' % integ
+                            counters[key] = max(counters.get(key, 0), int(100 * shift / (amp + 1e-13)))
+                            if gt(shift, 30 * amp + 1e-11):      # measured on the unchanged tree: up to 6 x amplitude (secular terms of multi-planet systems); a lost half kick or a non-symplectic force gives a linear drift of hundreds
+                                add('conserve:energy-drifts:%s' % integ, '%s: mean dE/E of steps %d-%d differs from the mean of steps 1-%d by %.3e, oscillation amplitude in the first third %.3e' % (desc, 2 * nd // 3, nd, nd // 3, shift, amp))
+                        if os.environ.get('VERIF_C04_DUMP'):
+                            with open(os.environ['VERIF_C04_DUMP'], 'a') as df:
+                                df.write(json.dumps(dict(desc=desc, spec=spec, hist=[(h[0], h[4]) for h in hist])) + '\n')
             cells.add(json.dumps([kind, integ, sorted(k for k in spec['opts']), unsafe]))
         elif kind == 'merge':
             integ = r.choice(['ias15', 'whfast', 'leapfrog', 'mercurius', 'trace', 'bs', 'saba'])
@@ -362,7 +386,7 @@ def run_case(case):
 def main(tier, seed):
     V = core.Verdict(PROPERTY, tier, seed)
     r = core.rng(PROPERTY, seed)
-    nb = 400 if tier == 'quick' else 4000
+    nb = 800 if tier == 'quick' else 4000
     have512 = 'avx512f' in open('/proc/cpuinfo').read()
     nsteps = [300, 600, 1500] if tier == 'quick' else [600, 3000, 10000]
     common = dict(KP=case_KP(), KL=case_KL(), nsteps=nsteps, merge_steps=600 if tier == 'quick' else 3000)
